@@ -363,7 +363,7 @@ fn gen_script(n_ops: u32, allow_admin: bool) -> Vec<Op> {
     let mut v = vec![];
     for _ in 0..n_ops {
         let kt = if chance(1, 4) { 1 } else { 0 };
-        let w = if allow_admin { draw(14) } else { draw(9) };
+        let w = if allow_admin { draw(15) } else { draw(9) };
         let op = match w {
             0..=3 => Op::Load { kt, keys: vec![draw(4) as u8], one: true },
             4..=7 => {
@@ -375,6 +375,7 @@ fn gen_script(n_ops: u32, allow_admin: bool) -> Vec<Op> {
             10 => Op::ClearOne { kt, key: draw(4) as u8 },
             11 => Op::Clear { kt },
             12 => Op::EnableAll(chance(1, 2)),
+            13 => Op::Enable { kt, on: chance(1, 2) },
             _ => Op::Cached { kt },
         };
         v.push(op);
